@@ -106,9 +106,12 @@ type Explorer struct {
 	Budget int
 	// Table resolves a package-level [256]T variable indexed by a byte to its constant entries (optional).
 	Table func(g *ssa.Global) *[256]int64
-	out   []Outcome
-	err   error
-	steps int
+	// Params binds parameters of a helper evaluated on constants (see evalHelper).
+	Params map[*ssa.Parameter]Val
+	out    []Outcome
+	err    error
+	steps  int
+	depth  int
 }
 
 // Explore returns the outcomes of fn, whose parameter number dataParam is the byte slice.
@@ -149,6 +152,9 @@ func (e *Explorer) val(st *state, v ssa.Value) Val {
 	case *ssa.Parameter:
 		if t == e.Data {
 			return Slice{0, -1}
+		}
+		if v, ok := e.Params[t]; ok {
+			return v
 		}
 		return Top{}
 	}
@@ -521,6 +527,9 @@ func (e *Explorer) eval(st *state, v ssa.Value) Val {
 				}
 			}
 		}
+		if _, isB := t.Call.Value.(*ssa.Builtin); !isB {
+			return e.evalHelper(st, t)
+		}
 		return Top{}
 	case *ssa.Slice:
 		base, ok := e.val(st, t.X).(Slice)
@@ -843,4 +852,82 @@ func (o *Outcome) Describe() string {
 		s += fmt.Sprintf(" data[%d] in %s", k, o.Sets[k])
 	}
 	return s
+}
+
+// evalHelper: a call of an unexported function of the same package whose parameters and single result are integers
+// (hexDigitValue(c byte) rune), with arguments that depend on at most one input position: the helper is interpreted
+// once per byte value that position can still have on this path, with constant arguments — the interpreter is exact
+// on constants — and the results form the per-position table of the call's value.
+func (e *Explorer) evalHelper(st *state, c *ssa.Call) Val {
+	callee := c.Call.StaticCallee()
+	if callee == nil || callee.Pkg == nil || callee.Pkg != e.Fn.Pkg || len(callee.Blocks) == 0 || e.depth >= 2 {
+		return Top{}
+	}
+	if obj := callee.Object(); obj == nil || obj.Exported() {
+		return Top{}
+	}
+	res := callee.Signature.Results()
+	if res.Len() != 1 || len(callee.Params) != len(c.Call.Args) {
+		return Top{}
+	}
+	if _, _, ok := intType(res.At(0).Type()); !ok {
+		return Top{}
+	}
+	pos := -1
+	args := make([]Sum, len(c.Call.Args))
+	for i, a := range c.Call.Args {
+		if _, _, ok := intType(callee.Params[i].Type()); !ok {
+			return Top{}
+		}
+		sv, ok := e.val(st, a).(Sum)
+		if !ok {
+			return Top{}
+		}
+		for k := range sv.T {
+			if pos >= 0 && pos != k {
+				return Top{}
+			}
+			pos = k
+		}
+		args[i] = sv
+	}
+	evalAt := func(b int) (int64, bool) {
+		sub := &Explorer{Fn: callee, Budget: 20000, Table: e.Table, Params: map[*ssa.Parameter]Val{}, depth: e.depth + 1}
+		for i, p := range callee.Params {
+			k := args[i].K
+			if tab, ok := args[i].T[pos]; ok && b >= 0 {
+				k += tab[b]
+			}
+			sub.Params[p] = konst(k)
+		}
+		sub.run(&state{sets: map[int]lts.ByteSet{}, lenMin: 0, lenMax: -1, env: map[ssa.Value]Val{}}, callee.Blocks[0], nil)
+		if sub.err != nil || len(sub.out) != 1 || len(sub.out[0].Results) != 1 {
+			return 0, false
+		}
+		r, ok := sub.out[0].Results[0].(Sum)
+		if !ok || len(r.T) != 0 {
+			return 0, false
+		}
+		return r.K, true
+	}
+	if pos < 0 {
+		k, ok := evalAt(-1)
+		if !ok {
+			return Top{}
+		}
+		return konst(k)
+	}
+	var tab [256]int64
+	cur := st.setAt(pos)
+	for b := 0; b < 256; b++ {
+		if !cur.Has(byte(b)) {
+			continue
+		}
+		k, ok := evalAt(b)
+		if !ok {
+			return Top{}
+		}
+		tab[b] = k
+	}
+	return Sum{T: map[int]*[256]int64{pos: &tab}}
 }
